@@ -421,7 +421,10 @@ class Held:
                 rf = e['rf']
                 u = rf['use']
                 utok = '0' if u is None else '1 %d %s' % (len(u.encode()), ' '.join('%x' % c for c in u.encode()))
-                s += ' 1 %s %s %s %s' % (qtok(rf['delay']), qlist(rf['t']), qlist(rf['mag']), utok)
+                # magnitudes scaled by one common power of two to integers (exact; calc_rf_center only compares
+                # them with 0.99999 * their maximum, which is scale invariant) - keeps the extracted arithmetic cheap
+                den = max([v.denominator for v in rf['mag']] + [1])
+                s += ' 1 %s %s %s %s' % (qtok(rf['delay']), qlist(rf['t']), qlist([v * den for v in rf['mag']]), utok)
             if e['adc'] is None:
                 s += ' 0'
             else:
@@ -488,6 +491,7 @@ class Rendering:
             if g is not None:
                 self.items.append((e['start'], e['start'] + e['dur'], g))
         self.starts = [it[0] for it in self.items]
+        self.cors = [event_corners(g, held.raster) for (_, _, g) in self.items]   # cached corner lists
 
     def active_values(self, t):
         out = []
@@ -495,7 +499,9 @@ class Rendering:
         for j in (i - 2, i - 1, i):
             if 0 <= j < len(self.items):
                 st, en, g = self.items[j]
-                v = event_value(g, self.h.raster, t - st)     # active = inside the event's own support
+                # active = inside the event's own support
+                v = event_value(g, self.h.raster, t - st) if g['k'] == 'trap' else \
+                    interp_corners(self.cors[j][0], self.cors[j][1], t - st)
                 if v is not None:
                     out.append(v)
         return out
